@@ -110,8 +110,9 @@ class Ctx:
             self.known_hits[key] += 1
             return
         self.obs["violations_seen"] += 1
+        self.obs["violation:" + key] += 1
         per_key = sum(1 for v in self.violations if v["key"] == key)
-        if per_key < 2 and len(self.violations) < 40:
+        if per_key < 2 and len(self.violations) < 160:
             self.violations.append({"key": key, "what": what[:1500], "case": jsonable(case)})
 
     def inconc(self, reason: str) -> None:
@@ -184,8 +185,8 @@ def finish(prop: str, tier: str, seed: int, level: str, rule: str, merged: dict,
     if merged["violations"]:
         os.makedirs(REPLAY_DIR, exist_ok=True)
         seen_keys = set()
-        for v in merged["violations"]:
-            if v["key"] in seen_keys and len(replay_paths) >= 5:
+        for v in sorted(merged["violations"], key=lambda x: x["key"]):
+            if v["key"] in seen_keys:
                 continue
             seen_keys.add(v["key"])
             h = shape_hash(v)[:10]
@@ -195,7 +196,7 @@ def finish(prop: str, tier: str, seed: int, level: str, rule: str, merged: dict,
             replay_paths.append(path)
             print(f"VIOLATION property={prop} replay={path}")
             print(f"  key={v['key']} what={v['what'][:400]}")
-            if len(replay_paths) >= 8:
+            if len(replay_paths) >= 40:
                 break
         code = 1
     obs = merged["obs"]
